@@ -215,6 +215,11 @@ def hist_cases(ctx):
     for i in range(n):
         length = rng.choice([3, 5, 8, 12, 20, 40]) if i % 10 else rng.choice([80, 150])
         out.append(render(gen_history(rng, length)))
+    # NaNs of every width and kind (signalling, negative, with payload) through the value getters, serialization and copy
+    nans = [(32, "7fb3f972"), (32, "ffc00001"), (32, "7f800001"), (32, "7fc00000"), (32, "ffffffff"), (64, "7ff0000000000001"),
+            (64, "fff8000000000001"), (64, "7ff8000000000000"), (64, "7ff4000000000000"), (16, "7fc00000"), (16, "7fe00000"), (16, "ffc00000")]
+    for wdt, bits in nans:
+        out.append(_close(["bf %d %s" % (wdt, bits), "val 0", "ser 0 12", "copy 0", "val 1", "nia", "push 2 0", "ser 2 16", "ssize 2"]))
     # size classes of the allocator: definite containers and payloads whose storage is 4 KiB .. 1 MiB (thresholds at
     # which a library might switch allocation strategy), built, used, copied and released
     for cap in (511, 512, 4096, 16383, 16384, 16385, 65536, 131072):
